@@ -1,5 +1,7 @@
 import ProductMD.Model.Builders
 import ProductMD.Model.Customs
+import ProductMD.Model.Gate
+import ProductMD.Generated.Gates
 /-!
 `serialize` / `deserialize` / `dumps` of the three payload-verbatim manifests (rpms.py:92-131, modules.py:81-94,
 extra_files.py:42-55) with the header (common.py `Header`) and compose (composeinfo.py `Compose`) sections.
@@ -35,9 +37,11 @@ def Kind.className : Kind → String
   | .modules => "modules.Modules"
   | .extraFiles => "extra_files.ExtraFiles"
 
-/- The version gates are read from the source on every run (`Generated/BuilderFacts.lean`, tools/gen_builders.py):
-   `Gen.GATE_Rpms_deserialize` (`version_tuple <= (0, 3)` → 0.3 reader), `Gen.GATE_Compose_deserialize`
-   (`version_tuple < (0, 3)` → 0.3 reader), `Gen.GATE_Header_deserialize` (`version_tuple >= (1, 1)` → type checked). -/
+/- The version gates are the generated ones (`Generated/Gates.lean`, tools/gen_gates.py, shared with C05/C07):
+   `Gen.gate_rpms_Rpms_deserialize_0` (`version_tuple <= (0, 3)` → 0.3 reader), `Gen.gate_composeinfo_Compose_deserialize_0`
+   (`version_tuple < (0, 3)` → 0.3 reader), `Gen.gate_common_Header_deserialize_0` (`version_tuple >= (1, 1)` → type checked).
+   A gate whose operator the translator did not recognise evaluates to `none`; the model then takes the non-legacy
+   branch and the obligations `gate_*` in Proofs/ManifestIO.lean (which demand `some _`) stop compiling. -/
 
 /-- `".".join(str(i) for i in VERSION)` -/
 def currentVersion : Str := Str.natStr Gen.VERSION.1 ++ '.' :: Str.natStr Gen.VERSION.2
@@ -52,30 +56,15 @@ def Manifest.init : Manifest := { version := .str (lit "0.0"), compose := compos
 /-! ### header -/
 
 inductive VTuple where
-  | nums (l : List Nat)
+  | nums (v : Nat × Nat)
   | text                        -- `split_version` returned `[version]`: a 1-tuple holding a string
 deriving DecidableEq, Repr
 
-/-- lexicographic `a < b` on tuples of ints -/
-def lexLt : List Nat → List Nat → Bool
-  | [], [] => false
-  | [], _ :: _ => true
-  | _ :: _, [] => false
-  | a :: as, b :: bs => a < b || (a == b && lexLt as bs)
-
-def lexLe (a b : List Nat) : Bool := !lexLt b a
-
-/-- `version_tuple <op> (a, b)` for a generated gate; an operator the translator did not recognise holds for nothing -/
-def gateHolds (g : String × List Nat) (l : List Nat) : Bool :=
-  if g.1 == "<=" then lexLe l g.2
-  else if g.1 == "<" then lexLt l g.2
-  else if g.1 == ">=" then lexLe g.2 l
-  else if g.1 == ">" then lexLt g.2 l
-  else false
+def gateHolds (g : Gate) (v : Nat × Nat) : Bool := (g.eval? v).getD false
 
 /-- `int(text)` for digits followed by at most one line feed (what `$` lets through) -/
 def pyIntLoose (s : Str) : Option Nat :=
-  pyIntDigits (if Str.endsWith s ['\n'] then s.dropLast else s)
+  (pyIntDigits (if Str.endsWith s ['\n'] then s.dropLast else s)).toOption
 
 def optMapM (f : α → Option β) : List α → Option (List β)
   | [] => some []
@@ -92,8 +81,8 @@ def versionTuple (v : PyVal) : Except Err VTuple :=
     | .str s =>
       if pyMatches Gen.re_common_split_version_0 s then .ok .text
       else match optMapM pyIntLoose (Str.splitOn '.' s) with
-        | some l => .ok (.nums l)
-        | none => .error .valueError
+        | some [a, b] => .ok (.nums (a, b))
+        | _ => .error .valueError
     | _ => .error .typeError
 
 /-- `Header.serialize` (after `set_current_version`) -/
@@ -114,7 +103,7 @@ def headerDeserialize (k : Kind) (doc : PyVal) : Except Err (PyVal × VTuple) :=
         match t with
         | .text => .error .typeError                      -- `("x.y",) >= (1, 1)`: str against int
         | .nums l =>
-          if gateHolds Gen.GATE_Header_deserialize l then
+          if gateHolds Gen.gate_common_Header_deserialize_0 l then
             match getItem hdr (lit "type") with
             | .error e => .error e
             | .ok mt => if PyVal.pyEq mt (.str k.headerType) then .ok (ver, t) else .error .valueError
@@ -139,7 +128,7 @@ def composeDeserialize (t : VTuple) (data : PyVal) : Except Err Obj :=
   match t with
   | .text => .error .typeError
   | .nums l =>
-    if gateHolds Gen.GATE_Compose_deserialize l then .error .other          -- 0.3 reader: C05/C15, not modelled here
+    if gateHolds Gen.gate_composeinfo_Compose_deserialize_0 l then .error .other          -- 0.3 reader: C05/C15, not modelled here
     else
       match getItem data (lit "compose") with
       | .error e => .error e
@@ -203,7 +192,7 @@ def deserialize (k : Kind) (doc : PyVal) : Except Err Manifest :=
   | .error e => .error e
   | .ok (ver, t) =>
     let legacy : Bool := match k, t with
-      | .rpms, .nums l => gateHolds Gen.GATE_Rpms_deserialize l
+      | .rpms, .nums l => gateHolds Gen.gate_rpms_Rpms_deserialize_0 l
       | _, _ => false
     if legacy then .error .other                               -- `Rpms.deserialize_0_3`: C05/C10, not modelled here
     else
